@@ -453,3 +453,32 @@ void harness_reply_to_request_without_id(void)
 	CHECK(verif_live_blocks == blocks0, "C07.routing_record_released_after_timeout");
 	WITNESS_END();
 }
+
+/* ================================================================== the owner disconnects with requests of two callers in flight: each gets exactly one
+ * shutdown error, nothing stays registered (run with the routed ids in distinct buckets and with all of them colliding) */
+void harness_owner_leaves_two_callers(void)
+{
+	setup();
+	int v = (int)nd_range(0, 999);
+	long blocks0 = verif_live_blocks;
+	int ka = do_set(&A, 7, v), kc = do_set(&C, 8, v);
+	__CPROVER_assume(ka >= 0 && kc >= 0);
+	CHECK(strcmp(LOG[ka].id_str, LOG[kc].id_str) != 0, "C03.routed_ids_unique_among_in_flight_requests");
+#ifdef THIRD_REQUEST
+	int ka2 = do_set(&A, 9, v);
+	__CPROVER_assume(ka2 >= 0);
+	CHECK(strcmp(LOG[ka].id_str, LOG[ka2].id_str) != 0 && strcmp(LOG[kc].id_str, LOG[ka2].id_str) != 0, "C03.routed_ids_unique_among_in_flight_requests");
+	int n = 3;
+#else
+	int n = 2;          /* with every id colliding, a bucket of the 4-slot table holds two entries (insertion range 2) */
+#endif
+	__CPROVER_assume(timers_alive() == n);
+	reset_log();
+	free_peer_resources(&O);
+	dead_peer = &O;
+	CHECK(answers_to(&A, 7) == 1 && answers_to(&C, 8) == 1 && (n == 2 || answers_to(&A, 9) == 1) && delivered() == n, "C03.owner_disconnect_answers_shutdown_error_once");
+	{ struct sent *a = answer_to(&C, 8); CHECK(a && a->is_error && !a->has_result, "C03.unanswered_request_ends_in_an_error"); }
+	CHECK(timers_alive() == 0, "C07.request_timers_destroyed_when_owner_leaves");
+	CHECK(verif_live_blocks <= blocks0, "C07.routing_records_released_when_owner_leaves");
+	WITNESS_END();
+}
